@@ -689,11 +689,46 @@ struct NetSt {
     attempts: Vec<Attempt>,
     /// per TCP connection: (queries written and not yet answered, maximum seen)
     outstanding: HashMap<u32, (u32, u32)>,
+    /// history part (hist.rs): every TCP stream handed to hickory after the warm-up
+    streams: Vec<StreamReg>,
+    /// history part: per server, "the peer closes `g` ms after its next TCP answer" (one-shot)
+    after_answer: HashMap<usize, u64>,
+    /// history part: per server, "the next UDP datagram fails in send_to" (one-shot;
+    /// true = ConnectionReset, false = an error kind outside the connection-closed class)
+    udp_err: HashMap<usize, bool>,
+}
+
+struct StreamReg {
+    server: usize,
+    id: u32,
+    st: Arc<Mutex<TcpSt>>,
 }
 
 pub struct Net {
-    scn: FScn,
+    pub(crate) scn: FScn,
     st: Mutex<NetSt>,
+}
+
+/// history part: something the peer does to the ESTABLISHED TCP connections of one server (or to
+/// its UDP port) between two lookups — see `hist.rs`
+#[derive(Clone, Debug, PartialEq)]
+pub enum Inject {
+    /// orderly close while idle. `eager`: the reader task is woken, as a reactor does when the FIN
+    /// arrives; otherwise the EOF is found by whoever reads next
+    Fin { eager: bool },
+    /// RST while idle, reader woken: the next read fails with ConnectionReset
+    Rst,
+    /// RST that is noticed by the next WRITE only: it fails with `kind` (reads fail afterwards)
+    WriteFails { kind: io::ErrorKind },
+    /// the next query written on the connection gets no reply; FIN / RST after `g` ms
+    NoReply { g: u64, rst: bool },
+    /// the next query written on the connection gets half of its reply frame (after the scripted
+    /// latency), then FIN / RST
+    Partial { rst: bool },
+    /// the peer closes `g` ms after the next answer it sends over TCP (any connection; armed per server)
+    FinAfterAnswer { g: u64 },
+    /// the next UDP datagram to the server fails in `send_to`
+    UdpSendFails { closed_class: bool },
 }
 
 impl Net {
@@ -705,7 +740,7 @@ impl Net {
         let t = Instant::now().saturating_duration_since(st.origin).as_micros() as u64;
         st.log.push(FEv { t, kind, server, proto, id, q, seq, what, arg });
     }
-    fn now_us(&self) -> u64 {
+    pub(crate) fn now_us(&self) -> u64 {
         let st = self.st.lock().unwrap();
         Instant::now().saturating_duration_since(st.origin).as_micros() as u64
     }
@@ -729,6 +764,77 @@ impl Net {
         let mut st = self.st.lock().unwrap();
         st.next_id += 1;
         (st.warm, st.next_id)
+    }
+
+    /// history part: apply `what` to every TCP connection of `server` that is established, not
+    /// yet dropped by hickory and not yet dead (or arm the per-server one-shot). Returns the
+    /// ids of the connections hit. Lock order: stream state, then `self.st` (as everywhere).
+    pub(crate) fn inject(&self, server: usize, what: &Inject) -> Vec<u32> {
+        match what {
+            Inject::FinAfterAnswer { g } => {
+                self.st.lock().unwrap().after_answer.insert(server, *g);
+                return Vec::new();
+            }
+            Inject::UdpSendFails { closed_class } => {
+                self.st.lock().unwrap().udp_err.insert(server, *closed_class);
+                return Vec::new();
+            }
+            _ => {}
+        }
+        let regs: Vec<(u32, Arc<Mutex<TcpSt>>)> = self.st.lock().unwrap().streams.iter().filter(|r| r.server == server).map(|r| (r.id, r.st.clone())).collect();
+        let now = Instant::now();
+        let mut hit = Vec::new();
+        for (id, st) in regs {
+            let mut st = st.lock().unwrap();
+            if st.dropped || st.eof || st.reset || st.doomed {
+                continue;
+            }
+            let mut wake = false;
+            let tag: &'static str = match what {
+                Inject::Fin { eager } => {
+                    let pos = st.inbox.iter().position(|(t, _)| *t > now).unwrap_or(st.inbox.len());
+                    st.inbox.insert(pos, (now, TcpItem::Eof));
+                    st.doomed = true;
+                    wake = *eager;
+                    if *eager {
+                        "fin-eager"
+                    } else {
+                        "fin-lazy"
+                    }
+                }
+                Inject::Rst => {
+                    let pos = st.inbox.iter().position(|(t, _)| *t > now).unwrap_or(st.inbox.len());
+                    st.inbox.insert(pos, (now, TcpItem::Reset));
+                    st.doomed = true;
+                    wake = true;
+                    "rst-eager"
+                }
+                Inject::WriteFails { kind } => {
+                    st.wfail = Some(*kind);
+                    st.doomed = true;
+                    "write-fails"
+                }
+                Inject::NoReply { g, rst } => {
+                    st.armed = Some(Treat::NoReply { g: *g, rst: *rst });
+                    st.doomed = true;
+                    "no-reply"
+                }
+                Inject::Partial { rst } => {
+                    st.armed = Some(Treat::Partial { rst: *rst });
+                    st.doomed = true;
+                    "partial"
+                }
+                Inject::FinAfterAnswer { .. } | Inject::UdpSendFails { .. } => unreachable!(),
+            };
+            self.ev("tcp-inject", server, 2, id, -1, 0, tag, 0);
+            hit.push(id);
+            if wake {
+                if let Some(w) = st.waker.take() {
+                    w.wake();
+                }
+            }
+        }
+        hit
     }
 }
 
@@ -876,6 +982,12 @@ impl DnsUdpSocket for FsUdp {
         let server = server_idx(target.ip());
         let beh = self.net.scn.servers.get(server).and_then(|s| s.udp.clone()).unwrap_or(UdpBeh::Silent);
         self.net.ev("udp-send", server, 1, self.id, q, seq, "", 0);
+        // history part: one-shot send failure
+        let inj = self.net.st.lock().unwrap().udp_err.remove(&server);
+        if let Some(closed_class) = inj {
+            self.net.ev("udp-send-error", server, 1, self.id, q, seq, if closed_class { "injected-connection-reset" } else { "injected-other" }, 0);
+            return Poll::Ready(Err(if closed_class { io::Error::new(io::ErrorKind::ConnectionReset, "scripted: connection reset (one-shot)") } else { io::Error::other("scripted: network unreachable (one-shot)") }));
+        }
         let ms = Duration::from_millis;
         let item = match beh {
             UdpBeh::SendErr => {
@@ -915,6 +1027,24 @@ struct TcpSt {
     waker: Option<Waker>,
     eof: bool,
     reset: bool,
+    // ---- history part
+    /// one-shot treatment of the next query written on this connection
+    armed: Option<Treat>,
+    /// the next write fails with this kind
+    wfail: Option<io::ErrorKind>,
+    /// a death of this connection is scripted (injected) — no second injection
+    doomed: bool,
+    /// hickory has been TOLD that the connection is dead: a read returned EOF / an error, or a
+    /// write returned an error
+    told_dead: bool,
+    /// hickory dropped the stream
+    dropped: bool,
+}
+
+#[derive(Clone, Debug)]
+enum Treat {
+    NoReply { g: u64, rst: bool },
+    Partial { rst: bool },
 }
 
 pub struct FsTcp {
@@ -923,12 +1053,29 @@ pub struct FsTcp {
     id: u32,
     /// connection made during the warm-up: closes on the first query
     warm: bool,
-    st: Mutex<TcpSt>,
+    st: Arc<Mutex<TcpSt>>,
 }
 
 impl FsTcp {
     fn new(net: Arc<Net>, server: usize, id: u32, warm: bool) -> FsTcp {
-        FsTcp { net, server, id, warm, st: Mutex::new(TcpSt { wbuf: Vec::new(), inbox: VecDeque::new(), rbuf: VecDeque::new(), timer: None, waker: None, eof: false, reset: false }) }
+        let st = Arc::new(Mutex::new(TcpSt {
+            wbuf: Vec::new(),
+            inbox: VecDeque::new(),
+            rbuf: VecDeque::new(),
+            timer: None,
+            waker: None,
+            eof: false,
+            reset: false,
+            armed: None,
+            wfail: None,
+            doomed: false,
+            told_dead: false,
+            dropped: false,
+        }));
+        if !warm {
+            net.st.lock().unwrap().streams.push(StreamReg { server, id, st: st.clone() });
+        }
+        FsTcp { net, server, id, warm, st }
     }
 
     /// a complete framed query arrived at the server
@@ -959,6 +1106,34 @@ impl FsTcp {
             f.extend_from_slice(&b);
             f
         };
+        // history part: one-shot treatment armed on this connection
+        if let Some(t) = st.armed.take() {
+            let lat = match &reply {
+                Reply::Answer { l } | Reply::Nx { l } => *l,
+                _ => 0,
+            };
+            match t {
+                Treat::NoReply { g, rst } => st.inbox.push_back((now + ms(g), if rst { TcpItem::Reset } else { TcpItem::Eof })),
+                Treat::Partial { rst } => {
+                    let f = frame(answer_bytes(id, &query, self.server, 2, q, seq, false));
+                    let cut = 2 + (f.len() - 2) / 2;
+                    st.inbox.push_back((now + ms(lat), TcpItem::Bytes { bytes: f[..cut].to_vec(), what: "partial", q, seq }));
+                    st.inbox.push_back((now + ms(lat), if rst { TcpItem::Reset } else { TcpItem::Eof }));
+                }
+            }
+            return Ok(());
+        }
+        // history part: the peer closes `g` ms after this answer
+        if let Reply::Answer { l } = reply {
+            let fin = self.net.st.lock().unwrap().after_answer.remove(&self.server);
+            if let Some(g) = fin {
+                st.inbox.push_back((now + ms(l), TcpItem::Bytes { bytes: frame(answer_bytes(id, &query, self.server, 2, q, seq, false)), what: "answer", q, seq }));
+                st.inbox.push_back((now + ms(l + g), TcpItem::Eof));
+                st.doomed = true;
+                self.net.ev("tcp-inject", self.server, 2, self.id, q, seq, "fin-after-answer", 0);
+                return Ok(());
+            }
+        }
         match reply {
             Reply::Answer { l } => st.inbox.push_back((now + ms(l), TcpItem::Bytes { bytes: frame(answer_bytes(id, &query, self.server, 2, q, seq, false)), what: "answer", q, seq })),
             Reply::Nx { l } => st.inbox.push_back((now + ms(l), TcpItem::Bytes { bytes: frame(nx_bytes(id, &query, seq)), what: "nx", q, seq })),
@@ -972,6 +1147,9 @@ impl FsTcp {
 
 impl Drop for FsTcp {
     fn drop(&mut self) {
+        if let Ok(mut st) = self.st.lock() {
+            st.dropped = true;
+        }
         self.net.ev("tcp-close", self.server, 2, self.id, -1, 0, "", 0);
     }
 }
@@ -1014,9 +1192,11 @@ impl futures::io::AsyncRead for FsTcp {
                 return Poll::Ready(Ok(n));
             }
             if st.reset {
+                st.told_dead = true;
                 return Poll::Ready(Err(io::Error::new(io::ErrorKind::ConnectionReset, "scripted: connection reset by peer")));
             }
             if st.eof {
+                st.told_dead = true;
                 return Poll::Ready(Ok(0));
             }
             match st.inbox.front().map(|(at, _)| *at) {
@@ -1042,8 +1222,20 @@ impl futures::io::AsyncWrite for FsTcp {
     fn poll_write(self: Pin<&mut Self>, _cx: &mut Context<'_>, buf: &[u8]) -> Poll<io::Result<usize>> {
         let this = self.get_mut();
         let mut st = this.st.lock().unwrap();
+        // history part: a write (start of a frame) on a connection hickory was told is dead
+        if st.told_dead && st.wbuf.is_empty() {
+            this.net.ev("tcp-write-after-dead", this.server, 2, this.id, CUR_Q.with(|c| c.get()), 0, "", 0);
+        }
         if st.reset {
+            st.told_dead = true;
             return Poll::Ready(Err(io::Error::new(io::ErrorKind::BrokenPipe, "scripted: write after reset")));
+        }
+        if let Some(kind) = st.wfail.take() {
+            // history part: the peer's RST is noticed by this write
+            st.reset = true;
+            st.told_dead = true;
+            this.net.ev("tcp-write-error", this.server, 2, this.id, -1, 0, if kind == io::ErrorKind::BrokenPipe { "broken-pipe" } else { "connection-reset" }, 0);
+            return Poll::Ready(Err(io::Error::new(kind, "scripted: peer reset the connection while it was idle")));
         }
         st.wbuf.extend_from_slice(buf);
         while st.wbuf.len() >= 2 {
@@ -1251,7 +1443,7 @@ fn strategy(s: Strat) -> ServerOrderingStrategy {
     }
 }
 
-async fn lookup<H: DnsHandle>(h: &H, net: &Arc<Net>, idx: usize, q: u8, at: u64) -> FCall {
+pub(crate) async fn lookup<H: DnsHandle>(h: &H, net: &Arc<Net>, idx: usize, q: u8, at: u64) -> FCall {
     let fut = async move {
         if at > 0 {
             tokio::time::sleep(Duration::from_millis(at)).await;
@@ -1293,74 +1485,103 @@ async fn drive<H: DnsHandle>(h: &H, net: &Arc<Net>, scn: &FScn, callers: &[FCall
     (calls, later_res, stuck)
 }
 
+/// fresh scripted network + pool for `scn` (inside a paused current-thread runtime), warm-up done
+pub(crate) async fn build(scn: &FScn) -> (Arc<Net>, Probe) {
+    let net = Arc::new(Net {
+        scn: scn.clone(),
+        st: Mutex::new(NetSt {
+            warm: true,
+            origin: Instant::now(),
+            log: Vec::new(),
+            next_id: 0,
+            seq: 0,
+            sends: 0,
+            runaway: false,
+            attempts: Vec::new(),
+            outstanding: HashMap::new(),
+            streams: Vec::new(),
+            after_answer: HashMap::new(),
+            udp_err: HashMap::new(),
+        }),
+    });
+    let prov = FsRuntime { handle: TokioHandle::default(), net: net.clone() };
+
+    let mut opts = ResolverOpts::default();
+    opts.timeout = Duration::from_millis(scn.timeout);
+    opts.connect_timeout = Duration::from_millis(scn.connect_timeout);
+    opts.num_concurrent_reqs = scn.conc;
+    opts.server_ordering_strategy = strategy(scn.strat);
+    opts.max_active_requests = scn.max_active;
+    if let Some(a) = scn.retry {
+        opts.attempts = a;
+    }
+    let mut servers = Vec::new();
+    for (i, s) in scn.servers.iter().enumerate() {
+        let ip = server_ip(i);
+        let mut cfg = match (s.udp.is_some(), s.tcp.is_some()) {
+            (true, true) => NameServerConfig::udp_and_tcp(ip),
+            (false, true) => NameServerConfig::tcp(ip),
+            _ => NameServerConfig::udp(ip),
+        };
+        cfg.trust_negative_responses = s.trust_nx;
+        servers.push(Arc::new(NameServer::new([], cfg, &opts, prov.clone())));
+    }
+    let cx = Arc::new(PoolContext::new(opts, TlsConfig::new().expect("tls config")));
+
+    // warm-up (zero virtual time): server i records warm[i] failed exchanges, each through a
+    // one-server pool (UDP: send_to fails; TCP: connects at once, closes on the query)
+    for (i, ns) in servers.iter().enumerate() {
+        let n = scn.warm.get(i).copied().unwrap_or(0);
+        if n == 0 {
+            continue;
+        }
+        let solo = NameServerPool::from_nameservers(vec![ns.clone()], cx.clone());
+        for r in 0..n {
+            let name = Name::from_ascii(format!("w{r}.warm.example.")).unwrap();
+            let req = DnsRequest::from_query(Query::new(name, RecordType::A), DnsRequestOptions::default());
+            let _ = solo.send(req).next().await;
+        }
+    }
+    {
+        let mut st = net.st.lock().unwrap();
+        st.warm = false;
+        st.origin = Instant::now();
+        st.sends = 0;
+        st.attempts.clear();
+        st.outstanding.clear();
+    }
+
+    let pool = NameServerPool::from_nameservers(servers, cx);
+    let probe = Probe { pool, net: net.clone() };
+    (net, probe)
+}
+
+impl Net {
+    /// history part: servers whose one-shot UDP send failure is armed
+    pub(crate) fn udp_armed(&self) -> Vec<usize> {
+        let mut v: Vec<usize> = self.st.lock().unwrap().udp_err.keys().copied().collect();
+        v.sort_unstable();
+        v
+    }
+
+    /// history part: number of socket events logged so far
+    pub(crate) fn log_len(&self) -> usize {
+        self.st.lock().unwrap().log.len()
+    }
+
+    /// (socket log, pool lookups, safety valve tripped)
+    pub(crate) fn snapshot(&self) -> (Vec<FEv>, Vec<Attempt>, bool) {
+        let st = self.st.lock().unwrap();
+        (st.log.clone(), st.attempts.clone(), st.runaway)
+    }
+}
+
 /// Run `callers` (and optionally the later identical query) of `scn` on a fresh pool, fresh
 /// runtime, paused clock.
 pub fn run(scn: &FScn, callers: &[FCaller], later: bool) -> FRun {
     let rt = tokio::runtime::Builder::new_current_thread().enable_time().start_paused(true).build().expect("runtime");
     rt.block_on(async {
-        let net = Arc::new(Net {
-            scn: scn.clone(),
-            st: Mutex::new(NetSt {
-                warm: true,
-                origin: Instant::now(),
-                log: Vec::new(),
-                next_id: 0,
-                seq: 0,
-                sends: 0,
-                runaway: false,
-                attempts: Vec::new(),
-                outstanding: HashMap::new(),
-            }),
-        });
-        let prov = FsRuntime { handle: TokioHandle::default(), net: net.clone() };
-
-        let mut opts = ResolverOpts::default();
-        opts.timeout = Duration::from_millis(scn.timeout);
-        opts.connect_timeout = Duration::from_millis(scn.connect_timeout);
-        opts.num_concurrent_reqs = scn.conc;
-        opts.server_ordering_strategy = strategy(scn.strat);
-        opts.max_active_requests = scn.max_active;
-        if let Some(a) = scn.retry {
-            opts.attempts = a;
-        }
-        let mut servers = Vec::new();
-        for (i, s) in scn.servers.iter().enumerate() {
-            let ip = server_ip(i);
-            let mut cfg = match (s.udp.is_some(), s.tcp.is_some()) {
-                (true, true) => NameServerConfig::udp_and_tcp(ip),
-                (false, true) => NameServerConfig::tcp(ip),
-                _ => NameServerConfig::udp(ip),
-            };
-            cfg.trust_negative_responses = s.trust_nx;
-            servers.push(Arc::new(NameServer::new([], cfg, &opts, prov.clone())));
-        }
-        let cx = Arc::new(PoolContext::new(opts, TlsConfig::new().expect("tls config")));
-
-        // warm-up (zero virtual time): server i records warm[i] failed exchanges, each through a
-        // one-server pool (UDP: send_to fails; TCP: connects at once, closes on the query)
-        for (i, ns) in servers.iter().enumerate() {
-            let n = scn.warm.get(i).copied().unwrap_or(0);
-            if n == 0 {
-                continue;
-            }
-            let solo = NameServerPool::from_nameservers(vec![ns.clone()], cx.clone());
-            for r in 0..n {
-                let name = Name::from_ascii(format!("w{r}.warm.example.")).unwrap();
-                let req = DnsRequest::from_query(Query::new(name, RecordType::A), DnsRequestOptions::default());
-                let _ = solo.send(req).next().await;
-            }
-        }
-        {
-            let mut st = net.st.lock().unwrap();
-            st.warm = false;
-            st.origin = Instant::now();
-            st.sends = 0;
-            st.attempts.clear();
-            st.outstanding.clear();
-        }
-
-        let pool = NameServerPool::from_nameservers(servers, cx);
-        let probe = Probe { pool, net: net.clone() };
+        let (net, probe) = build(scn).await;
         let (calls, later_res, stuck) = match scn.retry {
             None => drive(&probe, &net, scn, callers, later).await,
             Some(a) => drive(&RetryDnsHandle::new(probe, a), &net, scn, callers, later).await,
